@@ -87,6 +87,7 @@ package parser
 //@   modifies-fresh object(v.BinModel), object(v.BinModel.MetaDataMap), object(v.BinModel.Options), object(v.BinModel.PacketsMap)
 //@   requires len(v.BinModel.Packets) == 0
 //@   ensures typeis(result, *model.BinaryModel)
+//@   ensures [C12:D6-model] len(unbox(result, *model.BinaryModel).SyntaxErrors) == 0 ==> forall(p, 0, len(unbox(result, *model.BinaryModel).Packets), forall(i, 0, len(unbox(result, *model.BinaryModel).Packets[p].Fields), model.resolved(unbox(result, *model.BinaryModel), unbox(result, *model.BinaryModel).Packets[p].Fields[i])))
 //@   loop 0 invariant model.metaWF(v.BinModel)
 //@   loop 1 invariant model.metaWF(v.BinModel)
 //@   loop 4 invariant model.packetsNonNil(v.BinModel)
